@@ -39,14 +39,55 @@ Print Assumptions C01_eval_fuel_irrelevant.
 (* ------------------------------------------------------------------------------------
    The from-scratch theorem over the executable Core model (Core/Model.v), for every acyclic
    program of deterministic bodies (input reads, calls with dynamic keys, branches, untracked
-   reads, fault-injection points), every no_eq / LRU configuration, and every history of
-   operations (writes, synthetic writes of any durability, cell changes followed by a new
-   revision, reads in any order, LRU capacity changes, explicit eviction, fault switches)
-   in which input fields keep LOW durability:
+   reads, fault-injection points), every no_eq / LRU configuration, every assignment of initial
+   durabilities to the input fields (LOW, MEDIUM, HIGH, NEVER_CHANGE) and every history of
+   operations: writes that keep, raise or lower the field's durability (a write to a
+   NEVER_CHANGE field is rejected with a panic and changes nothing), synthetic writes of any
+   durability, cell changes followed by a new revision, reads in any order, LRU capacity
+   changes, explicit eviction, fault switches:
    every Get returns eval of the current snapshot — or unwinds with the backdate-violation
-   panic / an injected panic — and is never out of fuel, never a cycle panic. *)
-From Salsa.Core Require Import Inv InvTop.
+   panic / an injected panic — and is never out of fuel, never a cycle panic.
+   In particular the durability short-cut (shallow verification of a memo whose durability
+   level saw no write since it was verified) never yields a stale value.
+   Proof: Core/DurSem.v, DInv.v, DInvSem.v, DInvOps.v, DInvTop.v. *)
+From Salsa.Core Require Import Inv InvTop DInvTop.
 
+Theorem C01_from_scratch :
+  forall (prog : qkey -> body) (noeq : qkey -> bool) (fams : list N)
+         (rank : qkey -> nat) (NF : nat),
+  calls_below prog rank -> (forall q, (rank q < NF)%nat) ->
+  forall fuel, (forall p, (rank p < fuel)%nat) ->
+  forall iv idur lru0 ops,
+    (forall i, idur i <= 3) -> Forall dur_op ops -> wf_ops false ops ->
+    outs_ok prog noeq fams NF fuel (init iv idur lru0) ops.
+Proof.
+  intros prog noeq fams rank NF Hrank Hbound.
+  exact (from_scratch_dur_init prog noeq fams rank Hrank NF Hbound).
+Qed.
+Check C01_from_scratch :
+  forall (prog : qkey -> body) (noeq : qkey -> bool) (fams : list N)
+         (rank : qkey -> nat) (NF : nat),
+  calls_below prog rank -> (forall q, (rank q < NF)%nat) ->
+  forall fuel, (forall p, (rank p < fuel)%nat) ->
+  forall iv idur lru0 ops,
+    (forall i, idur i <= 3) -> Forall dur_op ops -> wf_ops false ops ->
+    outs_ok prog noeq fams NF fuel (init iv idur lru0) ops.
+Print Assumptions C01_from_scratch.
+
+(* what the hypotheses on durabilities say: the four levels of the API *)
+Theorem C01_dur_op_spec : forall o,
+  dur_op o <-> (forall i v d, o = OSet i v (Some d) -> d <= 3).
+Proof.
+  intros o. split.
+  - intros Hd i v d ->. exact Hd.
+  - intros Hx. destruct o as [i v [d|] | d | c v | c v | ef | q | fam n |]; cbn; try exact I.
+    apply (Hx i v d eq_refl).
+Qed.
+Check C01_dur_op_spec : forall o,
+  dur_op o <-> (forall i v d, o = OSet i v (Some d) -> d <= 3).
+Print Assumptions C01_dur_op_spec.
+
+(* the earlier LOW-durability statement, now a corollary *)
 Theorem C01_from_scratch_partial :
   forall (prog : qkey -> body) (noeq : qkey -> bool) (fams : list N)
          (rank : qkey -> nat) (NF : nat),
@@ -56,9 +97,8 @@ Theorem C01_from_scratch_partial :
     Forall low_op ops -> wf_ops false ops ->
     outs_ok prog noeq fams NF fuel (init iv (fun _ => 0) lru0) ops.
 Proof.
-  intros prog noeq fams rank NF Hrank Hbound fuel Hfuel iv lru0 ops Hlow Hwf.
-  exact (from_scratch_low prog noeq fams rank Hrank NF Hbound fuel Hfuel ops false _ Hlow Hwf
-           (init_ok prog NF iv lru0)).
+  intros prog noeq fams rank NF Hrank Hbound.
+  exact (from_scratch_low_again prog noeq fams rank Hrank NF Hbound).
 Qed.
 Check C01_from_scratch_partial :
   forall (prog : qkey -> body) (noeq : qkey -> bool) (fams : list N)
@@ -69,3 +109,27 @@ Check C01_from_scratch_partial :
     Forall low_op ops -> wf_ops false ops ->
     outs_ok prog noeq fams NF fuel (init iv (fun _ => 0) lru0) ops.
 Print Assumptions C01_from_scratch_partial.
+
+(* non-vacuity: a concrete history with a HIGH input, a memo served through the short-cut
+   after a LOW write, a HIGH write that invalidates it, durability changes and a frozen field
+   satisfies the hypotheses and returns the from-scratch values *)
+From Salsa.Core Require Import DurExamples.
+Theorem C01_durability_example :
+  outs_ok ex_prog ex_noeq [] 2 2 ex_init ex_ops /\
+  snd (ex_run 17) =
+    [Ok 3; Ok 2; Ok 0; Ok 2; Ok 7; Ok 0; Ok 5; Ok 10; Ok 0; Ok 0; Ok 11; Ok 0; Ok 11; Ok 0; Ok 16;
+     Panic PNeverChange; Ok 16] /\
+  d_log (fst (ex_run 4)) = [EvValidate (1, 0); EvExec (1, 0); EvExec (0, 0)] /\
+  firstn 1 (d_log (fst (ex_run 7))) = [EvExec (1, 0)].
+Proof.
+  split; [exact ex_outs_ok|]. split; [exact (proj1 ex_values)|].
+  destruct ex_shortcut_fires as (_ & _ & A & _ & _ & _ & B). split; assumption.
+Qed.
+Check C01_durability_example :
+  outs_ok ex_prog ex_noeq [] 2 2 ex_init ex_ops /\
+  snd (ex_run 17) =
+    [Ok 3; Ok 2; Ok 0; Ok 2; Ok 7; Ok 0; Ok 5; Ok 10; Ok 0; Ok 0; Ok 11; Ok 0; Ok 11; Ok 0; Ok 16;
+     Panic PNeverChange; Ok 16] /\
+  d_log (fst (ex_run 4)) = [EvValidate (1, 0); EvExec (1, 0); EvExec (0, 0)] /\
+  firstn 1 (d_log (fst (ex_run 7))) = [EvExec (1, 0)].
+Print Assumptions C01_durability_example.
